@@ -79,6 +79,7 @@ structure Server where
   sessions     : List Session := []      -- live sessions, in creation order
   conns        : List Conn := []         -- live connections
   nextSid      : Nat := 0
+  nextCid      : Nat := 0                -- connection ids are never reused (Go: pointers)
   rtp          : Clients (Nat × Nat) := []   -- udpRTPListener.clients : (session, media)
   rtcp         : Clients (Nat × Nat) := []   -- udpRTCPListener.clients
 deriving DecidableEq, Repr, Inhabited
@@ -275,9 +276,10 @@ def request (sv : Server) (cid : Nat) (r : Req) (now : Int) : Server × Nat :=
     let (sv1, status, err) := route sv c r now
     (if err then sv1.closeConn cid else sv1, status)
 
-/-- a new connection is accepted -/
+/-- a new connection is accepted; ids must be fresh (larger than every id used before) -/
 def openConn (sv : Server) (cid : Nat) (ip : IP) (zone : String) : Server :=
-  if (sv.findConn cid).isSome then sv else { sv with conns := sv.conns ++ [⟨cid, ip, zone, none⟩] }
+  if cid < sv.nextCid then sv
+  else { sv with conns := sv.conns ++ [⟨cid, ip, zone, none⟩], nextCid := cid + 1 }
 
 /-- a datagram on the RTP (`rtcp = false`) or RTCP listener: who gets it -/
 def datagram (sv : Server) (rtcp : Bool) (ip : IP) (port : Int) : Option (Nat × Nat) :=
